@@ -698,6 +698,29 @@ theorem spec_first_listed_clause_as (g : Nat → Node → Stmt) (f sc : Nat) (c 
     cases o <;> rfl
   · simp only [hl, Bool.false_eq_true, if_false]
 
+/-- **spec_first_listed_clause_ident**: `except "T0", … v { … }` (strings, an identifier, the block) with plain
+    literals handles `e` exactly when the type of `e` is listed; nothing is bound (the identifier is skipped), the
+    block runs in the clause's scope; otherwise the error goes on, unchanged and without effect, to the clauses
+    after it -/
+theorem spec_first_listed_clause_ident (g : Nat → Node → Stmt) (f sc : Nat) (c s0 a st : Node) (ss : List Node)
+    (rest : Clauses) (e : Sig) (s : St)
+    (ho : clauseShape c = .other) (hb : bindingShape c = .typedIdent s0 ss a st)
+    (hv : ∀ x ∈ s0 :: ss, PlainStr x (textOf x)) :
+    Spec.handle (clauseOfNode g (f+2) sc c rest) e s =
+      if ((s0 :: ss).map textOf).any (fun b => bytesToString b == errType e) then
+        (match Spec.exec (clauseBody g sc c st) s with
+         | (.normal _, s2) => (.normal Val.null, s2)
+         | (o, s2) => (o, s2))
+      else Spec.handle rest e s := by
+  unfold clauseOfNode
+  rw [ho]; simp only []; rw [hb]
+  simp only [Spec.handle, liftM, map_eval_plain f sc _ hv, typedMatch_values, pure_bind, run_pure, toOutS, toOut_ok]
+  by_cases hl : ((s0 :: ss).map textOf).any (fun b => bytesToString b == errType e) = true
+  · simp only [hl, if_true]
+    rcases Spec.exec (clauseBody g sc c st) s with ⟨o, s2⟩
+    cases o <;> rfl
+  · simp only [hl, Bool.false_eq_true, if_false]
+
 /-- **spec_refinement_partial** — the PROVED part of "eval refines the reference semantics": `eval_refines_spec`
     under the name that says it is partial. FULL statement not proved: the same with (1) calls inside a program
     read as `Stmt.call` BY `stmtOf` (a call node is still a leaf of `stmtOf`, because the function it calls is a value
@@ -705,7 +728,7 @@ theorem spec_first_listed_clause_as (g : Nat → Node → Stmt) (f sc : Nat) (c 
     `eval_call_refines_spec`, `eval_call_never_ret` — hypotheses: the variable holds a declared function, arguments
     and frame were built), (2) `for … in` loops (leaves). ALL except-clause shapes the parser produces are
     `Clauses.clause` now (bare, typed, `e`, `as e`, `"T" as e`, `"T" e`: `spec_bare_clause`, `spec_first_listed_clause`,
-    `spec_binding_clause`, `spec_first_listed_clause_as`); only a clause of none of these shapes stays a whole handler. With
+    `spec_binding_clause`, `spec_first_listed_clause_as`, `spec_first_listed_clause_ident`); only a clause of none of these shapes stays a whole handler. With
     `stmtOf := leaf ∘ eval` the statement would be `rfl`: its content is exactly the node kinds statements, if,
     condition loop and try (block, otherwise, finally, clause order, type test of bare / typed clauses). -/
 theorem spec_refinement_partial (f sc : Nat) (n : Node) (s : St) :
